@@ -5,7 +5,7 @@ import json, os, subprocess, sys
 from concurrent.futures import ThreadPoolExecutor
 
 HERE = os.path.dirname(os.path.dirname(os.path.abspath(__file__)))
-chk = json.load(open(os.path.join(HERE, "seeded", "CHECKS.json")))
+chk = json.load(open(os.environ.get("SEED_CHECKS") or os.path.join(HERE, "seeded", "CHECKS.json")))
 args = sys.argv[1:]
 jobs = 3
 if "-j" in args:
